@@ -174,6 +174,7 @@ def run_verus_unit(unit, tier, use_cache=True):
                          "generated_file": gen_path, "generated_sha256": meta["gen_sha256"],
                          "cuts": [rw for f in meta["functions"] for rw in f["rewrites"] if rw["rule"] in ("R8", "R8-cut", "STUB")]}
     res["assumption_scan"] = meta["assumption_scan"]
+    res["assumed_names"] = meta.get("assumed_names", [])
     res["verified_count"] = vr.get("verified")
     res["error_count"] = vr.get("errors")
     with open(os.path.join(GEN, unit + ".extraction.json"), "w") as fh:
@@ -307,13 +308,14 @@ def check_property(pid, tier, seed):
             "assumed_contracts": assumed,
             "solver_time_s": round(sum(r.get("solver_s", 0) for r in results), 2),
             "units": [{"unit": r["unit"], "tool": r["tool"], "wall_s": round(r["wall_s"], 2), "cached_solver_result": r.get("cached", False),
-                       "extraction": r.get("extraction"), "assumption_scan": r.get("assumption_scan"), "canaries": r.get("canaries"),
+                       "extraction": r.get("extraction"), "assumption_scan": r.get("assumption_scan"), "assumed_names": r.get("assumed_names"), "canaries": r.get("canaries"),
                        "second_run": r.get("second_run")} for r in results],
             "undecided": undecided + [o["name"] for o in und],
             "not_decided": NOT_DECIDED.get(pid, ""),
             "explanation": "obligations = named ensures clauses and body obligations (callee preconditions, overflow, index, panics, loop invariants, termination) of the real functions extracted from the working tree, discharged by the named back end; bounded checks are listed separately and never counted",
         },
-        "assumptions": ASSUMPTIONS_COMMON + [f"assumed contract: {a['name']} ({a['why']})" for a in assumed],
+        "assumptions": ASSUMPTIONS_COMMON + [f"assumed contract: {a['name']} ({a['why']})" for a in assumed]
+                       + [f"{r['unit']}: {n}" for r in results for n in (r.get("assumed_names") or [])],
         "wall_s": round(wall, 2),
         "violations": len([l for l in lines if l.startswith("VIOLATION")]),
     }
